@@ -7,7 +7,7 @@ Definition GenTables : tables :=
   {| t_pers := PersistentPrefixes; t_shared := SharedPrefixes; t_sp := SharedPersistentPrefixes |}.
 
 (* case = [ mode ; cfg ; keys ; init ; threads ; sched ; nwb ; observed ]
-   cfg = [shared; pers; fix_incr; fix_setnx; fix_wb; fix_list; fix_cwf; fix_cre]      init entry = [tier; key index; value]
+   cfg = [shared; pers; fix_incr; fix_setnx; fix_wb; fix_list; fix_cwf; fix_cre; exp_locked]      init entry = [tier; key index; value]
    thread = [ ops ; faults ; observed log ]       op = [code; key index; argument]
    value = [0; n] string | [1; [n..]] list | [2; n] counter        result = [code; payload]
    observed (sched) = [ [local; shared; pers] ; spawned ]   each tier = list of [key index; value]
@@ -29,6 +29,7 @@ Definition dec_op (keys : list kbytes) (v : tval) : op :=
   | 4%N => OAppend k (vn (vnth 2 v))
   | 5%N => ORemove k (vn (vnth 2 v))
   | 6%N => OIncr k
+  | 10%N => OSetExp k
   | _ => OSetNX k (dec_value (vnth 2 v))
   end.
 Definition dec_res (v : tval) : res :=
@@ -43,7 +44,7 @@ Definition dec_res (v : tval) : res :=
 Definition dec_tier (v : tval) : tier := match vn v with 0%N => TLocal | 1%N => TShared | _ => TPers end.
 Definition dec_cfg (v : tval) : cfg :=
   {| has_shared := vbool (vnth 0 v); en_pers := vbool (vnth 1 v); fix_incr := vbool (vnth 2 v); fix_setnx := vbool (vnth 3 v);
-     fix_wb := vbool (vnth 4 v); fix_list := vbool (vnth 5 v); fix_cwf := vbool (vnth 6 v); fix_cre := vbool (vnth 7 v) |}.
+     fix_wb := vbool (vnth 4 v); fix_list := vbool (vnth 5 v); fix_cwf := vbool (vnth 6 v); fix_cre := vbool (vnth 7 v); exp_locked := vbool (vnth 8 v) |}.
 
 Fixpoint nlist_eqb (a b : list N) : bool :=
   match a, b with
@@ -85,7 +86,7 @@ Definition tier_obs (keys : list kbytes) (w : world) (t : tier) (obs : tval) : b
 
 Definition cat_code (x : cat) : N :=
   match x with CRuntime => CatRuntime | CPersistent => CatPersistent | CShared => CatShared | CSharedPersistent => CatSharedPersistent end.
-Definition full_cfg : cfg := {| has_shared := true; en_pers := true; fix_incr := true; fix_setnx := true; fix_wb := true; fix_list := true; fix_cwf := true; fix_cre := true |}.
+Definition full_cfg : cfg := {| has_shared := true; en_pers := true; fix_incr := true; fix_setnx := true; fix_wb := true; fix_list := true; fix_cwf := true; fix_cre := true; exp_locked := true |}.
 
 Definition check_sched (v : tval) : bool :=
   let keys := map vb (vl (vnth 2 v)) in
